@@ -22,7 +22,8 @@ RULE = (
     "plug-in clauses: unknown-struct bindings, equal CAN ids (same bus / different buses / CAN + non-"
     "CAN), CAN message sizes 57..72 bits with the excess in a scalar, array, array of structs, enum or nested struct.  "
     "(c) 3-6 random permutations of the declaration lists of every tree.  Each tree is verified "
-    "with the general check set and, where relevant, with the DBC and C plug-in checks registered.  "
+    "with a fresh verifier (and, for the random and plug-in trees, also with one long-lived verifier per "
+    "check set that has verified all earlier trees) with the general check set and, where relevant, with the DBC and C plug-in checks registered.  "
     "Oracle: vf/ref/wellformed.py (the specification written twice; disagreement between the two "
     "formulations aborts).  Dispatch probe: on well-formed trees a recording check registered in "
     "each category must see every node of that category exactly once.  distinct = (check set, "
@@ -164,6 +165,32 @@ def real_verdict(run, t, checkset, case):
     return None
 
 
+class ReusedVerifiers:
+    """One long-lived verifier object per check set, reused for many trees in a row: each verdict must
+    equal the verdict of a fresh verifier (a verifier keeps no memory of earlier schemas)."""
+
+    def __init__(self):
+        self.v = {}
+
+    def verdict(self, run, t, checkset, fresh, case):
+        if checkset not in self.v:
+            self.v[checkset] = make_verifier(checkset)
+        try:
+            r = self.v[checkset].verify(build(t))
+        except Exception as e:
+            run.violation("verify() on a reused verifier raised %s: %s" % (type(e).__name__, str(e)[:200]), case)
+            self.v.pop(checkset, None)
+            return
+        got = r.is_ok() if hasattr(r, "is_ok") and type(r).__name__ in ("Ok", "Err") else None
+        run.count("reused_verifier_verdicts")
+        if got != fresh:
+            run.violation("a verifier that has verified other schemas before says %s, a fresh verifier says %s (check set %s)" % (r, "Ok" if fresh else "Err", checkset), case)
+            self.v.pop(checkset, None)
+
+
+REUSED = ReusedVerifiers()
+
+
 def permuted(r, t):
     p = copy.deepcopy(t)
     for k in ("structs", "enums", "impls", "services", "devices"):
@@ -191,6 +218,8 @@ def judge(run, t, checkset, origin, nperm=0, rng=None, sample=False):
         return
     run.count("verdicts_agree")
     run.count("expected_ok" if want else "expected_err")
+    if origin.startswith(("random", "plugin")):
+        REUSED.verdict(run, t, checkset, got, case)
     size = sum(len(t[k]) for k in t)
     run.case(sig="%s|%s|%s|%s|n%d" % (origin.split("/")[0], checkset, "ok" if want else "err", ",".join(rules), min(size, 12)))
     if sample and len(run.samples) < 4:
@@ -509,7 +538,7 @@ def run(run):
 
 
 def conclude(run):
-    run.require("verify_calls", "verdicts_agree", "expected_ok", "expected_err", "permutations_agree", "dispatch_probes")
+    run.require("reused_verifier_verdicts", "verify_calls", "verdicts_agree", "expected_ok", "expected_err", "permutations_agree", "dispatch_probes")
     for rule in RULES:
         if run.counters.get("injected/" + rule, 0) == 0:
             run.inconclusive_because("rule '%s' was never injected" % rule)
